@@ -175,6 +175,18 @@ class AutoSerialize:
         return val
 
     @staticmethod
+    def _restore_numpy_rng(subgrp: zarr.Group):
+        """Recreate a NumPy Generator of the saved bit generator type (with a fresh state)."""
+        import numpy.random as npr
+
+        bit_generator_type = subgrp.attrs.get("_bit_generator_type", "PCG64")
+        if bit_generator_type not in ("PCG64", "MT19937", "Philox", "SFC64"):
+            bit_generator_type = "PCG64"  # Fallback to default
+        # Note: We don't restore the exact state due to type compatibility issues
+        # The generator will work fine with fresh state and can be re-seeded if needed
+        return npr.Generator(getattr(npr, bit_generator_type)())
+
+    @staticmethod
     def _is_autoserialize_instance(value: Any) -> bool:
         """Return True if value behaves like an AutoSerialize instance, even across autoreloads."""
         if isinstance(value, AutoSerialize):
@@ -708,31 +720,7 @@ class AutoSerialize:
 
             # NumPy random generator
             elif subgrp.attrs.get("_numpy_rng"):
-                import numpy.random as npr
-
-                # rng_type = subgrp.attrs.get("_rng_type", "Generator")
-                bit_generator_type = subgrp.attrs.get("_bit_generator_type", "PCG64")
-                # rng_state = subgrp.attrs["_rng_state"]
-
-                # Create the appropriate bit generator
-                if bit_generator_type == "PCG64":
-                    bit_gen = npr.PCG64()
-                elif bit_generator_type == "MT19937":
-                    bit_gen = npr.MT19937()
-                elif bit_generator_type == "Philox":
-                    bit_gen = npr.Philox()
-                elif bit_generator_type == "SFC64":
-                    bit_gen = npr.SFC64()
-                else:
-                    # Fallback to default
-                    bit_gen = npr.PCG64()
-
-                # Create generator with fresh state
-                rng = npr.Generator(bit_gen)
-                # Note: We don't restore the exact state due to type compatibility issues
-                # The generator will work fine with fresh state and can be re-seeded if needed
-
-                setattr(obj, name, rng)
+                setattr(obj, name, cls._restore_numpy_rng(subgrp))
                 set_attrs.add(name)
 
             # PyTorch generator (skipped during save)
@@ -961,6 +949,8 @@ class AutoSerialize:
                             else:
                                 # Skip unknown logger types in containers
                                 continue
+                        elif subgroup.attrs.get("_numpy_rng"):
+                            items.append(cls._restore_numpy_rng(subgroup))
                         else:
                             raise ValueError(
                                 f"Unknown group structure at key '{key}' in {group.path}"
@@ -1079,6 +1069,8 @@ class AutoSerialize:
                         else:
                             # Skip unknown logger types in containers
                             continue
+                    elif subgroup.attrs.get("_numpy_rng"):
+                        items.append(cls._restore_numpy_rng(subgroup))
                     else:
                         raise ValueError(f"Unknown group structure at key '{key}' in {group.path}")
                 else:
@@ -1169,6 +1161,8 @@ class AutoSerialize:
                     else:
                         # Skip unknown logger types in containers
                         continue
+                elif subgroup.attrs.get("_numpy_rng"):
+                    result[key] = cls._restore_numpy_rng(subgroup)
                 else:
                     raise ValueError(f"Unknown group structure at key '{key}' in {group.path}")
 
